@@ -229,8 +229,10 @@ async fn channel(w: &Arc<World>, p: &Plan) {
             model.retain(|_, r| now - r.last_update_ms <= p.timeout_ms);
             let removed_model = before.len() - model.len();
             let removed = asm.cleanup_expired();
-            if removed != removed_model {
-                w.violation("expiry", format!("delivery {}: cleanup_expired() removed {} sequences, {} had been idle longer than the timeout", k, removed, removed_model));
+            // (an assembler that drops expired sequences on its own, earlier, reports fewer here; what
+            // counts is what is held afterwards, checked just below)
+            if removed > removed_model {
+                w.violation("expiry", format!("delivery {}: cleanup_expired() removed {} sequences, only {} had been idle longer than the timeout", k, removed, removed_model));
                 return;
             }
             if removed > 0 {
@@ -252,6 +254,13 @@ async fn channel(w: &Arc<World>, p: &Plan) {
             asm.add_fragment(s.id, d.frag, payload)
         };
         // model
+        if let Some(r) = model.get(&d.seq) {
+            if now - r.last_update_ms > p.timeout_ms {
+                // expired by the clock but not swept yet: whether it still counts is not determined
+                w.stat("c09.touch_of_expired_unswept_skipped");
+                return;
+            }
+        }
         let rec = model.entry(d.seq).or_default();
         rec.last_update_ms = now;
         if is_header {
@@ -291,8 +300,10 @@ async fn channel(w: &Arc<World>, p: &Plan) {
             }
             (false, None) => {}
         }
-        if asm.pending_count() != model.len() {
-            w.violation("pending-count", format!("after delivery {}: pending_count() is {} with {} incomplete sequences", k, asm.pending_count(), model.len()));
+        let unexpired = model.values().filter(|r| now - r.last_update_ms <= p.timeout_ms).count();
+        let pc = asm.pending_count();
+        if pc > model.len() || pc < unexpired {
+            w.violation("pending-count", format!("after delivery {}: pending_count() is {} with {} incomplete sequences of which {} unexpired", k, pc, model.len(), unexpired));
             return;
         }
     }
